@@ -16,7 +16,7 @@ RULE = (
     "Maxwell-Betti symmetry of the flexibility matrix assembled from the unit-load columns, superposition, rigid rotation of the tube model; "
     "non-trivial = distinct configurations with non-zero response"
 )
-ASSUMPTIONS = ["finite alphabets for layouts and section properties; ny<=7", "reference frame oasmc/ref/ref_beam.py (self-tested on closed-form cantilevers)", "loads of 1e3 N >> 1e-6 N zeroing threshold", "OpenMDAO/NumPy/SciPy trusted"]
+ASSUMPTIONS = ["finite alphabets for layouts (incl. 60 deg sweep, winglet, full-span structures centred and off the plane y = 0, model scale 1e-3, two materials) and section properties; ny<=7", "reference frame oasmc/ref/ref_beam.py (self-tested on closed-form cantilevers)", "loads of 1e3 N >> 1e-6 N zeroing threshold", "OpenMDAO/NumPy/SciPy trusted"]
 BOUND = {"quick": "ny in {2,3,4} half / {3,5} full", "thorough": "ny up to 7"}
 TOL = 1e-9
 E_, G_ = 70.0e9, 30.0e9
